@@ -1,7 +1,7 @@
 """C07 — no line from the server can kill the connection loop or stop later processing."""
 import datetime, os, re, socket, ssl, sys
 import boot
-from lib import wire, modelproc
+from lib import wire
 from lib.shrink import shrink_seq
 
 TABLES = ['T05', 'T07']
@@ -14,11 +14,12 @@ RULE = ('each case = a byte stream cut into recv() chunks (plus recv faults: tim
         'extracted model.  Streams: corpus, structured mostly-valid server traffic, hostile grammar (parse-clean and malformed), '
         'random bytes / invalid UTF-8, lines whose echoed fields (PING argument with and without ":", JOIN channel, NICK, CAP, 433, '
         'AUTHENTICATE) carry latin-1 / lone continuation bytes / overlong forms / encoded surrogates / NUL, random chunking; the real '
-        'decode_raw_line runs inside the real _read and the real outbuffer.encode() inside the real _sendIfMsgs.  Direct oracle: nothing escapes, driver stays registered, a final '
+        'decode_raw_line runs inside the real _read and the real encode of the outgoing messages (Irc._truncateMsg inside takeMsg, data.encode() in _sendIfMsgs) on the real send path.  Direct oracle: nothing escapes, driver stays registered, a final '
         'well-formed PING is answered.  non-trivial = distinct case with at least one complete non-blank line')
 TRUSTED = ['utils.str.decode_raw_line enters the model as a Section variable (any total function bytes->str); in the run the REAL function '
-           'decodes the real bytes inside SocketDriver._read and the REAL outbuffer.encode() runs in _sendIfMsgs; the model is given the '
-           'graph of the real function on the lines of the case and models the send-side encode as an escape point (surrogates); the '
+           'decodes the real bytes inside SocketDriver._read and the REAL encodes run on the send path; the model is given the '
+           'graph of the real function on the lines of the case and models both send-side encodes (Irc._truncateMsg under the takeMsg '
+           'firewall: the message is dropped; data.encode() in _sendIfMsgs: an escape point, unreachable after the first); the '
            'extractor checks decode_raw_line only uses the error handlers strict/replace; charade is not installed so only the utf-8 '
            'strict/replace branches run; outgoing messages other than PONG are not in the model (a failure to send them shows as an '
            'escape in the direct oracle and as a disagreement)',
@@ -37,9 +38,10 @@ ASSUMPTIONS = ['world.testing/log.testing off (log.firewall re-raises under test
 LEVEL_TEXT = ('Coq theorems over an executable exception-flow model of drivers.run / SocketDriver.run,_read,_sendIfMsgs / drivers.parseMsg '
               '(= the C05 parser model) / log.firewall / Irc.feedMsg,takeMsg,doPing with handlers, IrcState.addMsg and plugin callbacks as '
               'arbitrary state-mutating, raising functions: the firewall lets nothing but a BaseException of an Irc handler out of feedMsg; '
-              'for every chunking and every recv fault sequence, if every complete line parses the driver stays registered and nothing leaves '
-              'driver.run() (refuted outside that domain by the one-line stream ":" — finding F4 — and by a valueless time tag — F3); a PING '
-              'after any parse-clean prefix is answered; the domain also says what the send side assumes: every echoed PONG payload is '
+              'for EVERY byte stream, chunking and recv fault sequence the driver stays registered and nothing leaves driver.run() '
+              '(full statement since the repairs of C07.F4 — per-line try/except in _read — and C05.F3 — TypeError in IrcMsg.__init__: '
+              'the parser model raises only MalformedIrcMsg and the guard table catches it), provided decode_raw_line yields no lone '
+              'surrogate; a PING after any prefix of bytes is answered; the domain also says what the send side assumes: every echoed PONG payload is '
               'encodable (no lone surrogate), which a decode_raw_line restricted to strict/replace guarantees.  The except-clause lists of _read, drivers.run, log.firewall, feedMsg and the '
               '__firewalled__ dictionaries are regenerated from the source on every run; the model is run beside the real driver + Irc.')
 LEVEL_NOTE = ('Trusted: Coq kernel, gen_tables.py/t07.py, extraction + OCaml driver, the Python harness; decode_raw_line, strptime, recv and '
@@ -211,6 +213,14 @@ def env():
 XBOOM_CODES = (1, 2, 3, 4, 5, 6, 7, 8, 9, 12, 20, 21, 22, 23, 24)
 
 
+def decoder(inp):
+    """the decode_raw_line of the case: the real one, or (inp['decode'] == 'se') a stand-in that yields lone surrogates, so that
+    the real send path (Irc._truncateMsg under the takeMsg firewall, data.encode() in _sendIfMsgs) meets unencodable echoes"""
+    if inp.get('decode') == 'se':
+        return lambda b: b.decode('utf-8', 'surrogateescape')
+    return env()['decode']
+
+
 def run_impl(inp):
     """run one case on the real driver + Irc; returns the observation in the model's output format"""
     E = env()
@@ -229,7 +239,7 @@ def run_impl(inp):
     drv.irc = irc
     irc.driver = drv
     conn = E['FakeConn']()
-    drv.conn, drv.inbuffer, drv.outbuffer, drv.zombie, drv.connected = conn, b'', '', False, True
+    drv.conn, drv.inbuffer, drv.outbuffer, drv.zombie, drv.connected = conn, b'', b'', False, True
     drv.eagains, drv.writeCheckTime, drv.nextReconnectTime, drv.currentDelay = 0, None, None, 10.0
     drv.networkName = 'test'
     drv.currentServer = drivers.Server('verif.invalid', 6667, None, False)
@@ -261,6 +271,8 @@ def run_impl(inp):
         escaped.append(sys.exc_info()[1])
     drivers.log.exception = rec_exc
     escapes, crashed = [], False
+    old_dec = S.decode_raw_line
+    S.decode_raw_line = decoder(inp) if inp.get('decode') else old_dec
     try:
         for it in inp['chunks']:
             if crashed or NAME not in drivers._drivers:
@@ -275,6 +287,7 @@ def run_impl(inp):
                 continue
             escapes.append(exc_code(escaped[0]) if escaped else 0)
     finally:
+        S.decode_raw_line = old_dec
         drivers.log.exception = old_exc
         alive = NAME in drivers._drivers
         drivers._drivers.clear()
@@ -287,7 +300,7 @@ def run_impl(inp):
         if l.startswith('PONG '):
             pongs.append(E['ircmsgs'].IrcMsg(l).args[0] if l != 'PONG :' else '')
     stuck = []
-    for l in drv.outbuffer.split('\r\n'):
+    for l in drv.outbuffer.decode('utf-8', 'replace').split('\r\n'):
         if l.startswith('PONG '):
             stuck.append(E['ircmsgs'].IrcMsg(l).args[0] if l != 'PONG :' else '')
     obs = {'alive': alive, 'crashed': crashed, 'escapes': escapes, 'pongs': pongs, 'log': H.log,
@@ -328,8 +341,9 @@ def model_tables(inp):
     """graph of decode_raw_line on the lines of the case + the time-tag values strptime accepts"""
     E = env()
     dtab, vts = [], []
+    dec = decoder(inp)
     for raw in set(stream_lines(inp)) | {b''}:
-        s = E['decode'](raw)
+        s = dec(raw)
         if s != raw.decode('latin-1'):
             dtab.append([list(raw), s])
         s = s.strip()
@@ -406,34 +420,16 @@ def oracle(inp, obs):
     if not obs['alive']:
         return 'driver no longer in drivers._drivers'
     tok = inp.get('final_ping')
-    if tok and not legit_drop(inp, obs) and tok not in obs['pongs']:
+    # (with a surrogate-yielding stand-in decoder an unencodable PONG ahead in the queue is dropped first and may delay the answer)
+    if tok and not inp.get('decode') and not legit_drop(inp, obs) and tok not in obs['pongs']:
         return 'the final PING :%s was not answered (PONGs sent: %r)' % (tok, obs['pongs'][-3:])
     return None
 
 
 # ---------------------------------------------------------------- classes of known findings
-_cache = {}
-
-
-def _dom_info(inp):
-    key = wire.enc(wire_dom(inp))
-    if key not in _cache:
-        out = modelproc.run('C07', [wire_dom(inp, 1), wire_dom(inp, 2)])
-        _cache[key] = (bool(out[0]), list(out[1]))
-    return _cache[key]
-
-
-def malformed_line(inp):
-    """outside the domain of C07_loop_survives_on_domain because some complete line does not parse (extracted
-    predicate parse_excs; NOT merely `not dom`: an unencodable echo is outside dom too and is not a known finding)"""
-    return len(_dom_info(inp)[1]) > 0
-
-
-def valueless_time(inp):
-    return 4 in _dom_info(inp)[1]
-
-
-CLASSES = {'valueless_time_tag': valueless_time, 'malformed_line': malformed_line}
+# none: C07.F4 and C07.F3 are repaired (findings/C07.json "fixed"); their witnesses head the corpus below, and
+# nothing attributes a failure to them any more.
+CLASSES = {}
 
 
 # ---------------------------------------------------------------- generators
@@ -579,6 +575,9 @@ def mutate(rng, l):
 
 
 CORPUS = [
+    # the witnesses of the repaired findings C07.F4 and C07.F3 (reported again as violations if they ever return)
+    {'chunks': [['d', ':\r\n'], ['d', 'PING :after\r\n']], 'cbs': [], 'addmsg': [], 'final_ping': 'after'},
+    {'chunks': [['d', '@time :x PING y\r\n'], ['d', 'PING :after\r\n']], 'cbs': [], 'addmsg': [], 'final_ping': 'after'},
     {'chunks': [['d', ':\n']], 'cbs': [], 'addmsg': []},
     {'chunks': [['d', '@time :x PING y\r\n']], 'cbs': [], 'addmsg': []},
     {'chunks': [['d', 'PING :a\r\n:\r\nPING :b\r\n'], ['d', 'PING :c\r\n']], 'cbs': [], 'addmsg': [], 'final_ping': 'c'},
@@ -602,6 +601,10 @@ CORPUS = [
     {'chunks': [['d', 'PING \x80\r\nPING :\xed\xa0\x80\r\nPING :\xc0\x80 \xf4\x90\x80\x80\r\n:\xff PING a\x00b\r\n'], ['d', 'PING :c\r\n']],
      'cbs': [], 'addmsg': [], 'final_ping': 'c'},
     {'chunks': [['d', ':test!u@h JOIN #caf\xe9\r\n:test!u@h NICK :\xe9\r\n'], ['d', 'PING :c\r\n']], 'cbs': [], 'addmsg': [], 'final_ping': 'c'},
+    # a decoder yielding lone surrogates: the unencodable PONGs are dropped under the takeMsg firewall, one per _sendIfMsgs
+    {'chunks': [['d', 'PING :caf\xe9\r\n'], ['d', 'PING :c\r\n']], 'cbs': [], 'addmsg': [], 'final_ping': 'c', 'decode': 'se'},
+    {'chunks': [['d', 'PING :\xe9\r\nPING \x80\r\nPING :\xff\r\nPING :\xfe\r\nPING :ok\r\n'], ['d', 'PING :c\r\n'], ['r', 21]],
+     'cbs': [], 'addmsg': [], 'final_ping': 'c', 'decode': 'se'},
 ]
 
 
@@ -653,6 +656,11 @@ def gen_cases(ctx):
         ls = [echo_line(rng) if rng.random() < 0.7 else rng.choice(VALID + ABSURD) for _ in range(rng.randint(1, 6))]
         cases.append(('echo-bytes', mk_case(rng, ls, heavy=rng.random() < 0.5)))
     for _ in range(ctx.n(300)):
+        ls = [echo_line(rng) if rng.random() < 0.8 else rng.choice(VALID + ABSURD) for _ in range(rng.randint(1, 6))]
+        inp = mk_case(rng, ls, heavy=rng.random() < 0.5)
+        inp['decode'] = 'se'
+        cases.append(('echo-surrogate-decoder', inp))
+    for _ in range(ctx.n(300)):
         ls = [''.join(rng.choice(ALPHA) for _ in range(rng.randint(1, 5))) for _ in range(rng.randint(1, 6))]
         cases.append(('short-alphabet', mk_case(rng, ls, heavy=False)))
     # recv faults that legitimately drop the connection; BaseException from plugins (correspondence only)
@@ -696,16 +704,6 @@ def run(ctx):
         if m != o:
             diff = {k: (m[k], o[k]) for k in m if m[k] != o[k]}
             ctx.disagree(inp, {k: v[0] for k, v in diff.items()}, {k: v[1] for k, v in diff.items()}, 'observables ' + ','.join(sorted(diff)))
-    # prefill the class cache in one batch for the failing inputs
-    todo = [f['input'] for f in ctx.failures if wire.enc(wire_dom(f['input'])) not in _cache]
-    if todo and not ctx.model_broken:
-        try:
-            o1 = modelproc.run('C07', [wire_dom(i, 1) for i in todo])
-            o2 = modelproc.run('C07', [wire_dom(i, 2) for i in todo])
-            for i, a, b in zip(todo, o1, o2):
-                _cache[wire.enc(wire_dom(i))] = (bool(a), list(b))
-        except Exception:
-            pass
 
 
 def replay(ctx, inp):
@@ -723,6 +721,8 @@ def shrink(ctx, inp):
 
     def build(ls, cbs=inp.get('cbs', []), addmsg=inp.get('addmsg', [])):
         c = {'chunks': [['d', (l + b'\n').decode('latin-1')] for l in ls if len(l) < 1024], 'cbs': cbs, 'addmsg': addmsg}
+        if inp.get('decode'):
+            c['decode'] = inp['decode']
         if tok:
             c['final_ping'] = tok
             c['chunks'].append(['d', 'PING :%s\r\n' % tok])
